@@ -460,7 +460,12 @@ class Engine(ExprMixin, StmtMixin, CallMixin, BuiltinMixin, EngineBase):
         t._paths = (nret, nexc)
         t._fn_fqn = fn.fqn
         t._fnode = fnode
-        t._stmt_lines = sorted({n.lineno for n in _own_statements(fnode)})
+        t._stmt_lines = sorted({n.lineno for n in _own_statements(fnode)}) if t.node is None else []
+        # additional functions (inlined callees) whose statements must all be reached on a feasible path
+        t._cover_extra = []
+        for cmod, cqual in getattr(t, "cover", ()):
+            ex = extract.find(cmod, cqual)
+            t._cover_extra.append((f"{cmod}.{cqual}", sorted({n.lineno for n in _own_statements(ex.node)})))
         for g in t.ghost:
             if (g[0], g[1]) not in fn._ghost_hits:
                 raise Unsupported(f"ghost anchor not found in {t.name}: {g[0]!r} (the code changed shape; the contract must be re-anchored)")
